@@ -23,7 +23,7 @@ ASSUMPTIONS = ["the generator's spec is what the headers state (cross-checked by
 
 @st.composite
 def cases(draw, tier="quick"):
-    spec = draw(plotgen.plot_specs(thin=True, max_levels=4, max_cells=1500 if tier == "quick" else 6000, max_fields=6,
+    spec = draw(plotgen.plot_specs(thin=True, many=True, max_levels=4, max_cells=1500 if tier == "quick" else 6000, max_fields=6,
                                    payload_kinds=("coded", "random", "special")))
     if spec["mesh"]["nlev"] == 4:
         spec["mesh"]["nb0"] = [min(n, 2) for n in spec["mesh"]["nb0"]]
